@@ -8,7 +8,7 @@ from vfw import x690ref as R
 from vfw.schema import T
 
 BOUNDS = ("histories of N symbolic steps (N = 2 quick, 3 thorough), each step = (operation code, position i in [-3, 4], value x in [0, 9]) over: "
-          "SEQUENCE OF INTEGER and SEQUENCE OF SEQUENCE (elements instantiated through the container, 3 steps) with a declared component type - append, __setitem__ (incl. position N = append), extend, slice assignment, clear, reset, sort, reverse, "
+          "SEQUENCE OF INTEGER and SEQUENCE OF SEQUENCE (elements instantiated through the container, 3 steps) with a declared component type - append, __setitem__ (incl. position N = append), extend, slice assignment, clear, reset, sort (plain, and with a tying key in both directions), reverse, "
           "clone(cloneValueFlag=True), setComponentByPosition, readers; SEQUENCE {a INTEGER, b OCTET STRING OPTIONAL, c BOOLEAN DEFAULT TRUE} - set by name/position/"
           "__setitem__, clear, reset, clone, readers, unknown name / out-of-range position; CHOICE - select alternative by name/position/type, clear, reset, readers; "
           "after every step the object is compared with a list / dict / pair model and with the reference DER of the model; schema scalars: 14 operations raise the library error")
@@ -118,6 +118,12 @@ def seqof_history(n_steps, ops, strict_range=False):
                     raise Skip()
                 o.reverse()
                 m = list(reversed(m))
+            elif op == 11 or op == 12:
+                # sort with a key that ties neighbouring values, ascending and descending: list.sort is stable in both directions
+                if m is None:
+                    raise Skip()
+                o.sort(key=lambda v_: int(v_) // 2, reverse=(op == 11))
+                m = sorted(m, key=lambda v_: v_ // 2, reverse=(op == 11))
             elif op == 7:
                 o = o.clone(cloneValueFlag=True)
             elif op == 8:
@@ -229,6 +235,92 @@ def sofrec_history(n_steps, ops):
 
 def sofrec3(op0, i0, x0, op1, i1, x1, op2, i2, x2):
     return sofrec_history(3, [(op0, i0, x0), (op1, i1, x1), (op2, i2, x2)])
+
+
+# ------------------------------------------------------------------ SEQUENCE with a nested SEQUENCE vs dict of dicts (partially filled members)
+
+NREC = T("SEQ", comps=[("id", T("INT"), "req", None), ("inner", T("SEQ", comps=[("x", T("INT"), "req", None), ("y", T("INT"), "req", None)]), "req", None),
+                       ("l", T("SEQOF", elem=T("INT")), "opt", None)])
+
+
+def _nrec_view(o):
+    out = {}
+    c = o.getComponentByPosition(0, default=None, instantiate=False)
+    if c is not None:
+        out["id"] = int(c)
+    # (a partially filled member is not a value yet, so the non-instantiating public accessor hides it: look at the store)
+    from pyasn1.type.base import noValue
+
+    cv = o._componentValues
+    inner = None
+    if cv is not noValue and len(cv) > 1 and cv[1] is not noValue:
+        inner = cv[1]
+    if inner is not None:
+        d = {}
+        for j, name in enumerate(("x", "y")):
+            cc = inner.getComponentByPosition(j, default=None, instantiate=False)
+            if cc is not None:
+                d[name] = int(cc)
+        if d:
+            out["inner"] = d
+    l = o.getComponentByPosition(2, default=None, instantiate=False)
+    if l is not None:
+        out["l"] = [int(e_) for e_ in l]
+    return out
+
+
+def nrec_history(n_steps, ops):
+    """Members of the nested record are filled one by one through the container (so it is incomplete in between); clone, clear and reads in between."""
+    o = mk_type(NREC).clone()
+    m = None
+    for step, (op, x) in enumerate(ops[:n_steps]):
+        try:
+            if op == 0:
+                o["id"] = x
+                m = dict(m or {}, id=x)
+            elif op == 1:
+                o["inner"]["x"] = x
+                m = dict(m or {})
+                m["inner"] = dict(m.get("inner", {}), x=x)
+            elif op == 2:
+                o["inner"]["y"] = x
+                m = dict(m or {})
+                m["inner"] = dict(m.get("inner", {}), y=x)
+            elif op == 3:
+                o = o.clone(cloneValueFlag=True)
+            elif op == 4:
+                o.clear()
+                m = {}
+            elif op == 5:
+                o["l"].append(x)
+                m = dict(m or {})
+                m["l"] = list(m.get("l", [])) + [x]
+            elif op == 6:
+                len(o)
+                list(o.keys())
+                o.isValue
+                o.prettyPrint()
+            else:
+                raise Skip()
+        except (IndexError, KeyError, error.PyAsn1Error):
+            return "step %d: well-formed operation %d raised" % (step, op)
+        got = _nrec_view(o)
+        if got != (m or {}):
+            return "step %d: content %s, model %s" % (step, got, m or {})
+        complete = m is not None and "id" in m and len(m.get("inner", {})) == 2
+        if o.isValue != bool(complete):
+            return "step %d: isValue is %s, the model is %scomplete" % (step, o.isValue, "" if complete else "in")
+        if complete and der_encoder.encode(o) != bytes(R.der(NREC, m)):
+            return "step %d: DER differs from the DER of the model" % step
+    return None
+
+
+def nrec3(op0, x0, op1, x1, op2, x2):
+    return nrec_history(3, [(op0, x0), (op1, x1), (op2, x2)])
+
+
+def nrec4(op0, x0, op1, x1, op2, x2, op3, x3):
+    return nrec_history(4, [(op0, x0), (op1, x1), (op2, x2), (op3, x3)])
 
 
 # ------------------------------------------------------------------ SEQUENCE vs dict
@@ -527,8 +619,12 @@ def _first_op_shards(nops, extra=None):
 
 
 OBLIGATIONS = [
-    Obl("seqof2", seqof2, dict(_params(2, 10), strict_range=B), shards=_first_op_shards(10), budget=120, tiers=("quick", "thorough"), doc="SEQUENCE OF INTEGER vs list, every 2-step history"),
-    Obl("seqof3", seqof3, _params(3, 10), shards=[{"op0": C(a), "op1": C(b)} for a in range(11) for b in range(11)], thorough_budget=300, tiers=("thorough",)),
+    Obl("nrec3", nrec3, {"op0": I(0, 6), "x0": I(0, 9), "op1": I(0, 6), "x1": I(0, 9), "op2": I(0, 6), "x2": I(0, 9)}, shards=[{"op0": C(a)} for a in range(7)], budget=120,
+        doc="SEQUENCE with a nested SEQUENCE filled member by member (incomplete in between), clone/clear/reads in between, vs dict of dicts; every 3-step history"),
+    Obl("nrec4", nrec4, {"op0": I(0, 6), "x0": I(0, 9), "op1": I(0, 6), "x1": I(0, 9), "op2": I(0, 6), "x2": I(0, 9), "op3": I(0, 6), "x3": I(0, 9)},
+        shards=[{"op0": C(a), "op1": C(b)} for a in range(7) for b in range(7)], thorough_budget=300, tiers=("thorough",)),
+    Obl("seqof2", seqof2, dict(_params(2, 12), strict_range=B), shards=_first_op_shards(12), budget=120, tiers=("quick", "thorough"), doc="SEQUENCE OF INTEGER vs list, every 2-step history"),
+    Obl("seqof3", seqof3, _params(3, 12), shards=[{"op0": C(a), "op1": C(b)} for a in range(13) for b in range(13)], thorough_budget=300, tiers=("thorough",)),
     Obl("sofrec3", sofrec3, dict((k, (I(0, 5) if k.startswith("op") else I(0, 2) if k.startswith("i") else I(0, 9))) for k in _params(3, 5)),
         shards=[{"op0": C(a), "op1": C(b)} for a in range(6) for b in range(6)], budget=120,
         doc="SEQUENCE OF SEQUENCE with elements instantiated through the container vs a list of dicts, every 3-step history"),
